@@ -24,13 +24,17 @@ package fiber
 // configDependentPaths (the only code that assigns path/detectionPath) keep it. Assumed for what the pool hands
 // out (it cannot be re-proved at Put: handlers ran in between and the generator havocs the heap there; no code
 // outside NewDefaultCtx assigns app/req/res and handlers cannot reach the unexported fields).
-//@ macro ctxWF(c) = c.app != nil && c.req != nil && c.res != nil && c.req.ctx == c && c.res.ctx == c && (arr(c.path) == 0 || arr(c.path) != arr(c.detectionPath))
+// The Req()/Res() helpers referring to THIS context is NOT assumed of what the pool hands out: a custom context built
+// the documented way (`DefaultCtx: *NewDefaultCtx(app)`) holds a COPY whose helpers point to the orphaned original;
+// Reset establishes it (clause helpers-refer-to-this-context).
+//@ macro ctxPre(c) = c.app != nil && (arr(c.path) == 0 || arr(c.path) != arr(c.detectionPath))
+//@ macro ctxWF(c) = ctxPre(c) && c.req != nil && c.res != nil && c.req.ctx == c && c.res.ctx == c
 
 // Assumption about sync.Pool (the only one): Get returns New() or an object that was Put and not touched
 // since, and never hands one object to two users. Hence what Get returns satisfies whatever is proved at
 // every Put and of every New (obligations `pool-invariant` / `pool-new` below).
 //@ func @sync.(*Pool).Get assumed pure
-//@   ensures ctx-pool-invariant: typeis(result, *DefaultCtx) ==> as(result, *DefaultCtx) != nil && poolClean(as(result, *DefaultCtx)) && ctxWF(as(result, *DefaultCtx))
+//@   ensures ctx-pool-invariant: typeis(result, *DefaultCtx) ==> as(result, *DefaultCtx) != nil && poolClean(as(result, *DefaultCtx)) && ctxPre(as(result, *DefaultCtx))
 //@   ensures redirect-pool-type: p == redirectPool ==> typeis(result, *Redirect)
 //@   ensures redirect-pool-invariant: typeis(result, *Redirect) ==> as(result, *Redirect) != nil && redirectClean(as(result, *Redirect))
 
@@ -137,9 +141,10 @@ package fiber
 //@ ..  (len(c.flashMessages) == 0 || called((*Redirect).parseAndClearFlashMessages))
 
 //@ func (*DefaultCtx).Reset
-//@   requires from-pool: poolClean(c) && ctxWF(c)
+//@   requires from-pool: poolClean(c) && ctxPre(c)
 //@   requires [C06] wf-immutable: c.app.config.Immutable ==> copies(c.app.getString)
-//@   modifies c.indexRoute, c.indexHandler, c.matched, c.pathOriginal, c.methodInt, c.fasthttp, c.baseURI, c.path, c.detectionPath, c.treePathHash, elems(c.path), elems(c.detectionPath)
+//@   modifies c.indexRoute, c.indexHandler, c.matched, c.pathOriginal, c.methodInt, c.fasthttp, c.baseURI, c.path, c.detectionPath, c.treePathHash, elems(c.path), elems(c.detectionPath), c.req, c.res
+//@   ensures [C07] helpers-refer-to-this-context: c.req != nil && c.res != nil && c.req.ctx == c && c.res.ctx == c
 //@   atcall (*App).methodInt: method-of-this-request: s == hdrMethod(fctx.Request.Header, epoch) && app == c.app
 //@   ensures fresh-for-this-request: freshFor(c, fctx)
 //@   ensures buffers-allocated: buffersAllocated(c)
@@ -188,8 +193,8 @@ package fiber
 // Reset as seen through the Ctx interface (AcquireCtx calls it that way): for a DefaultCtx it is
 // (*DefaultCtx).Reset above (same frame, same postcondition). Custom contexts are outside this contract.
 //@ func Ctx.Reset(recv, fctx) assumed
-//@   requires from-pool: typeis(recv, *DefaultCtx) ==> poolClean(as(recv, *DefaultCtx)) && ctxWF(as(recv, *DefaultCtx))
-//@   modifies DefaultCtx.indexRoute, DefaultCtx.indexHandler, DefaultCtx.matched, DefaultCtx.pathOriginal, DefaultCtx.methodInt, DefaultCtx.fasthttp, DefaultCtx.baseURI, DefaultCtx.path, DefaultCtx.detectionPath, DefaultCtx.treePathHash, heap(E_uint8)
+//@   requires from-pool: typeis(recv, *DefaultCtx) ==> poolClean(as(recv, *DefaultCtx)) && ctxPre(as(recv, *DefaultCtx))
+//@   modifies DefaultCtx.indexRoute, DefaultCtx.indexHandler, DefaultCtx.matched, DefaultCtx.pathOriginal, DefaultCtx.methodInt, DefaultCtx.fasthttp, DefaultCtx.baseURI, DefaultCtx.path, DefaultCtx.detectionPath, DefaultCtx.treePathHash, DefaultCtx.req, DefaultCtx.res, heap(E_uint8)
 //@   ensures typeis(recv, *DefaultCtx) ==> freshFor(as(recv, *DefaultCtx), fctx) && ctxWF(as(recv, *DefaultCtx)) && buffersAllocated(as(recv, *DefaultCtx))
 
 // AcquireCtx: the Get side. Whatever the pooled context served before, the caller gets a context whose
@@ -291,3 +296,15 @@ package fiber
 //@ func (*sendFileStore).compareConfig
 //@   pure
 //@   ensures same-in-every-field: result <==> (sf.config.FS == cfg.FS && sf.config.Compress == cfg.Compress && sf.config.ByteRange == cfg.ByteRange && sf.config.Download == cfg.Download && sf.config.CacheDuration == cfg.CacheDuration && sf.config.MaxAge == cfg.MaxAge)
+
+// Req() / Res(): the helper objects of THIS context (what Reset established): every method of DefaultReq / DefaultRes
+// forwards to r.ctx, so a helper referring to another DefaultCtx - the orphaned original of a copied custom context,
+// whose fasthttp field is nil - makes the first forwarded call dereference nil.
+//@ func (*DefaultCtx).Req
+//@   pure
+//@   requires [C07] wf: c.req != nil && c.req.ctx == c
+//@   ensures [C07] helper-of-this-context: result != nil && as(result, *DefaultReq).ctx == c
+//@ func (*DefaultCtx).Res
+//@   pure
+//@   requires [C07] wf: c.res != nil && c.res.ctx == c
+//@   ensures [C07] helper-of-this-context: result != nil && as(result, *DefaultRes).ctx == c
